@@ -44,7 +44,7 @@ PROBES = ["timeout_path", "peer_fin_before_response", "peer_rst_mid_response", "
           "handler_raised", "handler_illformed", "middleware_denied", "oversize_line",
           "start_server_root", "start_server_locations", "listing_served", "titan_upload_path",
           "delayed_handler_gt_timeout", "default_404_reached",
-          "late_completion_after_timeout"]
+          "late_completion_after_timeout", "proxy_location_scripted_upstream"]
 COMPONENTS = {
     "real": ["nauyaca.server.protocol / tls_protocol / server.start_server / router / handler / "
              "content.gemtext / middleware / proxy", "asyncio selector transports + sslproto",
@@ -415,6 +415,21 @@ def run_one(ch):
         paths = sorted(tree)
         listing = ch.chance("listing", 0.7)
         state["listing"] = listing
+        if assembly == 2:
+            # the proxy location's upstream: nobody listening, or a scripted TLS server
+            ub = ch.choose("upstream", 5, [2, 2, 2, 1, 1])
+            state["upstream"] = "gemini://nobody.sim:1965" if ub == 0 else "gemini://up.sim:1965"
+            if ub:
+                from sim.clientwire import ScriptedServer
+                uscript = {1: [("wait_line",), ("send", b"20 text/plain\r\nfrom upstream\n"), ("close",)],
+                           2: [("wait_line",), ("send", b"20 text/plain\r\npartial body"), ("stall",)],
+                           3: [("stall",)],
+                           4: [("wait_line",), ("send", b"nonsense header\r\n"), ("close",)]}[ub]
+                ScriptedServer(sim, "up.sim", 1965, "rsa2", lambda i_, s_: {"script": uscript})
+                res.stats["proxy_location_scripted_upstream"] += 1
+            paths = paths + ["/px/x", "/px/y?q=1"]
+            tree["/px/x"] = ("any",)
+            tree["/px/y?q=1"] = ("any",)
         hplan = uplan = None
         spy = upspy = None
         mwkind = 0
@@ -450,7 +465,7 @@ def run_one(ch):
                                        document_root=pathlib.Path(root, "sub"),
                                        enable_directory_listing=listing),
                         LocationConfig(prefix="/px/", handler_type=HandlerType.PROXY,
-                                       upstream="gemini://nobody.sim:1965", timeout=2.0)]
+                                       upstream=state["upstream"], timeout=2.0)]
                 if ch.chance("catchall", 0.5):
                     locs.append(LocationConfig(prefix="/", handler_type=HandlerType.STATIC,
                                                document_root=pathlib.Path(root),
